@@ -576,6 +576,8 @@ impl Check for C04 {
         }
         let sp: Vec<Case> = SCOPE_PROGRAMS.iter().enumerate().map(|(i, p)| Case::new(p.to_string(), 30, format!("scope program {}", i))).collect();
         ctx.judge(sp, |c, r, o| self.oracle(c, r, o))?;
+        let sc: Vec<Case> = super::evalorder::SCOPING_PROGRAMS.iter().enumerate().map(|(i, p)| Case::new(p.to_string(), 30, format!("which declaration a name reaches, program {}", i))).collect();
+        ctx.judge(sc, |c, r, o| self.oracle(c, r, o))?;
         let tp: Vec<Case> = super::evalorder::THIS_PROGRAMS.iter().enumerate().map(|(i, p)| Case::new(p.to_string(), 30, format!("`this` is resolved where the function was created, program {}", i))).collect();
         ctx.judge(tp, |c, r, o| self.oracle(c, r, o))?;
         ctx.guard("a closure was called after its defining scope ended", g_closure_outlives);
